@@ -496,6 +496,10 @@ QL_KINDS = {"PROBA_MIN_BOX", "PROBA_MIN_DIAMOND", "PROBA_CMP", "SIMULATEREACH", 
             "CONTROL_TOPT_DEF2", "PO_CONTROL", "SUP_VAR", "INF_VAR", "BOUNDS_VAR", "PROBA_BOX", "PROBA_DIAMOND", "PROBA_EXP", "SIMULATE"}
 
 
+def leq_twin(qq):
+    return re.sub(r"\)\s*<=\s*([0-9.e+-]+)$", r") >= \1", qq)
+
+
 def run_query_layer(ctx, b, drv, texts, model_bugs):
     """every form of the query layer x random operand expressions (the minimal renderings of this run's trees): the real parser's kind tree
     and str() against the model's parse and print (driver op QRY); and the property itself on the library (equal tree, identical text)"""
@@ -530,8 +534,12 @@ def run_query_layer(ctx, b, drv, texts, model_bugs):
             for _ in range(n // 4):
                 ops = [r.choice(pool if r.random() < 0.6 else small) for _ in range(3)]
                 lst = ", ".join(r.choice(small) for _ in range(r.randint(1, 4)))
-                queries.append(form.replace("{B}", bnd).replace("{L}", lst).replace("{R}", str(r.choice([0, 1, 2, 7, 50])))
-                               .replace("{D}", r.choice(QL_PROBS)).format(*ops))
+                qq = (form.replace("{B}", bnd).replace("{L}", lst).replace("{R}", str(r.choice([0, 1, 2, 7, 50])))
+                      .replace("{D}", r.choice(QL_PROBS)).format(*ops))
+                queries.append(qq)
+                if ") <= " in form:
+                    # the `>=` twin of a `<= p` query: the model judges its operands (criterion `good`, bound shape), which are the same
+                    queries.append(leq_twin(qq))
     for form in QL_CMP:
         for b1 in QL_BOUNDS:
             for _ in range(n // 4):
@@ -560,6 +568,7 @@ def run_query_layer(ctx, b, drv, texts, model_bugs):
         model_bugs.append(("driver died on the query layer", rows[len(mo)][0] if len(mo) < len(rows) else "?", ""))
         return st
     rejected_by_model = 0
+    model_of = {qq: m for (qq, f), m in zip(rows, mo)}
     for (qq, f), m in zip(rows, mo):
         kind, s1, status, s2, kt = f[1], f[2], f[3], f[4], f[5]
         st["by_kind"][kind] = st["by_kind"].get(kind, 0) + 1
@@ -574,8 +583,19 @@ def run_query_layer(ctx, b, drv, texts, model_bugs):
             # `Pr[..](..) <= p`: outside the model; the property itself on the library
             st["outside_model_leq_p"] = st.get("outside_model_leq_p", 0) + 1
             if not impl_ok:
-                ctx.finding("literal:double-printed-with-6-digits" if status in ("equal", "notequal") else "query:" + kind,
-                            "query %r: str() gives %r; re-parse: %s" % (qq, s1, status), replay)
+                tw = model_of.get(leq_twin(qq), "").split("\t")
+                twin_wf = len(tw) == 5 and tw[1] == "true"
+                if "--2147483648" in s1.replace(" ", ""):
+                    k3 = "text:minus-minus-2147483648"
+                elif re.search(r"\b(forall|exists|sum)\(\w+:\(", s1):
+                    k3 = "binder:quantifier-type-printed-with-type_t::str"
+                elif not twin_wf and re.search(r"\bPr\[\s*[^<#\s]", qq):
+                    k3 = "query:bound-operand-printed-without-parentheses"     # (the operands are outside the criterion of the `>=` twin)
+                elif status in ("equal", "notequal"):
+                    k3 = "literal:double-printed-with-6-digits"                  # 1 - p, printed with 6 digits
+                else:
+                    k3 = ("query-operand:" if not twin_wf else "query:") + kind
+                ctx.finding(k3, "query %r: str() gives %r; re-parse: %s" % (qq, s1, status), replay)
             continue
         if len(g) != 5:
             rejected_by_model += 1
